@@ -4,8 +4,8 @@
 seed=$1; shift
 cd /repo || exit 2
 if [ -n "$(git status --porcelain --untracked-files=no)" ]; then echo "/repo not clean"; exit 2; fi
-git apply "$seed/patch.diff" || { echo "patch does not apply"; exit 2; }
-trap 'cd /repo && git checkout -- . ' EXIT
+git apply "$seed/patch.diff" 2>/dev/null || git apply --3way "$seed/patch.diff" 2>/dev/null || { echo "patch does not apply"; git reset -q --hard HEAD; exit 2; }
+trap 'cd /repo && git reset -q --hard HEAD' EXIT
 cd /verif
 for p in "$@"; do
   bin/govc check --property $p --no-evidence > /tmp/try_seed_$p.out 2>&1
